@@ -33,12 +33,13 @@ type Opts struct {
 	ReqRange           string `json:"req_range,omitempty"`
 	NoAutoRead         bool   `json:"disable_auto_read,omitempty"`
 	TimeoutMs          int    `json:"timeout_ms,omitempty"`
+	H2MaxHeaderList    int    `json:"h2_max_header_list_size,omitempty"`
 }
 
 type Round struct {
 	Data []byte `json:"-"`
 	Lazy string `json:"generated_by,omitempty"` // big streams are materialised only while the case runs
-	Hex  string `json:"data,omitempty"` // filled for descriptions (capped)
+	Hex  string `json:"data,omitempty"`         // filled for descriptions (capped)
 	Len  int    `json:"len"`
 	Segs []int  `json:"segs,omitempty"`
 	End  string `json:"end"`
@@ -63,6 +64,7 @@ type Case struct {
 	Rounds []Round     `json:"rounds,omitempty"`
 	Opts   Opts        `json:"opts"`
 	S      *Structured `json:"structured,omitempty"`
+	Ended  bool        `json:"h2_end_stream_on_headers,omitempty"`
 	Model  bool        `json:"model_compared"` // emit an H1Case for the Coq model
 	Flood  int64       `json:"flood_heap_bound,omitempty"`
 	Input  string      `json:"input,omitempty"` // parser-level cases: the header value (hex in descriptions)
@@ -514,6 +516,8 @@ func genCases(seed uint64, quick bool) []*Case {
 	}
 	// I. parser-level cases
 	genParserCases(r, quick, add)
+	// J. HTTP/2 frame sequences
+	genH2Cases(r, quick, add)
 	return out
 }
 
